@@ -66,6 +66,28 @@ func c11Run(rc *RunCtx) *Violation {
 	var viol *Violation
 	var run *smpRun
 	finished := 0
+	// The application keeps each secret in one buffer and hands the very same slice to the
+	// library every time (a retry, a re-verification): the library must not change it.
+	bufs := map[[2]int][]byte{}
+	secretBuf := func(party, id int) []byte {
+		k := [2]int{party, id % 7}
+		if b, ok := bufs[k]; ok {
+			return b
+		}
+		b := append([]byte{}, SecretByID(id)...)
+		bufs[k] = b
+		return b
+	}
+	checkBufs := func() *Violation {
+		for i := 0; i < 2; i++ {
+			for id := 0; id < 7; id++ {
+				if b, ok := bufs[[2]int{i, id}]; ok && !bytes.Equal(b, SecretByID(id)) {
+					return rc.Viol("argument.modified", fmt.Sprintf("the library changed the caller's secret buffer (party %d, secret %d): now %s", i, id, short(b)), nil)
+				}
+			}
+		}
+		return nil
+	}
 	ask := [2]bool{}
 	final := map[string]bool{"Success": true, "Failure": true, "Abort": true, "Cheated": true, "Error": true}
 	w.Observers = append(w.Observers, func(p *Party, r *CallResult) {
@@ -105,6 +127,8 @@ func c11Run(rc *RunCtx) *Violation {
 		}
 	})
 	kinds := ""
+	restarts := 0
+	pendingRestart := false
 	gen := func() (Step, bool) {
 		r := rc.Rng
 		var fly int
@@ -113,10 +137,12 @@ func c11Run(rc *RunCtx) *Violation {
 				fly += len(w.Links[i][j])
 			}
 		}
-		// smpstart smpanswer send deliver tick
-		wt := []int{0, 0, 6, 20, 1}
+		// smpstart smpanswer send deliver tick smprestart
+		wt := []int{0, 0, 6, 20, 1, 0}
 		if run == nil {
 			wt[0] = 6
+		} else if !relay {
+			wt[5] = 1
 		}
 		if ask[0] || ask[1] {
 			wt[1] = 6
@@ -155,8 +181,11 @@ func c11Run(rc *RunCtx) *Violation {
 			}
 			l := ls[r.Intn(len(ls))]
 			return Step{K: "deliver", A: l[0], B: l[1]}, true
-		default:
+		case 4:
 			return Step{K: "tick", A: r.Intn(len(tickDur))}, true
+		default:
+			sec := []int{0, 0, 6, 3}[r.Intn(4)]
+			return Step{K: "smprestart", C: sec}, true
 		}
 	}
 	closeRun := func() *Violation {
@@ -191,6 +220,20 @@ func c11Run(rc *RunCtx) *Violation {
 			break
 		}
 		switch s.K {
+		case "smprestart":
+			// the initiator starts again while its run is still in progress (abort + new request)
+			// only at a quiescent moment while the peer has been asked but has not answered yet
+			// (otherwise messages of the old run are still under way and the outcome is not defined)
+			if run == nil || run.answered || w.TotalInFlight() != 0 || !(ask[0] || ask[1]) {
+				continue
+			}
+			i := run.init
+			run = &smpRun{init: i, secI: s.C, startCall: w.Seq}
+			ask = [2]bool{}
+			r := w.P[i].SMPStartRaw("", secretBuf(i, s.C))
+			w.Enqueue(w.P[i], r)
+			restarts++
+			pendingRestart = true
 		case "smpstart":
 			if run != nil {
 				continue
@@ -201,7 +244,12 @@ func c11Run(rc *RunCtx) *Violation {
 			}
 			run = &smpRun{init: i, secI: s.C, startCall: w.Seq}
 			ask = [2]bool{}
-			w.Exec(s)
+			q := ""
+			if s.B%2 == 1 {
+				q = fmt.Sprintf("question-%d?", s.B)
+			}
+			r := w.P[i].SMPStartRaw(q, secretBuf(i, s.C))
+			w.Enqueue(w.P[i], r)
 		case "smpanswer":
 			i := s.A % 2
 			if run == nil || !ask[i] || i == run.init {
@@ -209,7 +257,8 @@ func c11Run(rc *RunCtx) *Violation {
 			}
 			run.secR, run.answered = s.C, true
 			ask[i] = false
-			w.Exec(s)
+			r := w.P[i].SMPAnswerRaw(secretBuf(i, s.C))
+			w.Enqueue(w.P[i], r)
 		case "deliver":
 			s.C = 0
 			w.Exec(s)
@@ -219,6 +268,17 @@ func c11Run(rc *RunCtx) *Violation {
 		kinds += s.K[:2] + fmt.Sprint(s.A%4)
 		if viol != nil {
 			return viol
+		}
+		if v := checkBufs(); v != nil {
+			return v
+		}
+		if pendingRestart && w.TotalInFlight() == 0 {
+			// an orderly restart (abort + new request) has been delivered: the peer must have
+			// been asked for the secret again, otherwise the run can never succeed
+			pendingRestart = false
+			if run != nil && !run.answered && !ask[1-run.init] {
+				return rc.Viol("restart.not-asked", fmt.Sprintf("%s restarted SMP while the peer was being asked; after delivery the peer has not been asked again", w.P[run.init].Name), nil)
+			}
 		}
 		if run != nil && run.answered && w.TotalInFlight() == 0 {
 			if v := closeRun(); v != nil {
@@ -238,6 +298,7 @@ func c11Run(rc *RunCtx) *Violation {
 	rc.Stats.Nontrivial = finished >= 1
 	rc.Stats.Sig = fmt.Sprintf("v%d relay%d %s", rc.Cfg["version"], rc.Cfg["relay"], kinds)
 	rc.ProbeN("smp_runs_finished", finished)
+	rc.ProbeN("smp_restarts_mid_run", restarts)
 	if relay {
 		rc.Probe("relay_worlds")
 	}
